@@ -27,7 +27,7 @@ type MustCallSpec struct {
 	Func    string   `json:"func"`
 	Targets []string `json:"targets"` // function keys; every path from entry to a return passes a call reaching one of them
 	What    string   `json:"what"`
-	Mode    string   `json:"mode"` // "" = on every path; "reach" = sibling agreement: the target is reachable from the function at all
+	Mode    string   `json:"mode"` // "" = on every path; "reach" = sibling agreement: the target is reachable from the function at all; "each" = reached only through a loop
 }
 
 type PairSpec struct {
@@ -424,6 +424,56 @@ func runMustCall(p *Program, c *Collector, mc MustCallSpec) {
 		names = append(names, shortFn(t))
 	}
 	key := "mustcall:" + mc.Func + " -> " + strings.Join(names, "|")
+	if mc.Mode == "each" {
+		// every call path from the function to the target passes a call site that lies inside a loop: the target is applied
+		// to each element of some collection (each modifier of a declaration), not to one picked element
+		key = "each:" + mc.Func + " -> " + strings.Join(names, "|")
+		var bad ssa.Instruction
+		found := false
+		var dfs func(f *ssa.Function, inLoop bool, depth int, seen map[*ssa.Function]bool)
+		dfs = func(f *ssa.Function, inLoop bool, depth int, seen map[*ssa.Function]bool) {
+			if depth > 4 || seen[f] {
+				return
+			}
+			seen[f] = true
+			defer delete(seen, f)
+			loops := naturalLoops(f)
+			for _, b := range f.Blocks {
+				here := inLoop
+				for _, l := range loops {
+					if l[b] {
+						here = true
+					}
+				}
+				for _, in := range b.Instrs {
+					call, ok := in.(ssa.CallInstruction)
+					if !ok {
+						continue
+					}
+					for _, callee := range p.ownCallees(call) {
+						if m.targets[callee] {
+							found = true
+							if !here && bad == nil {
+								bad = in
+							}
+							continue
+						}
+						dfs(callee, here, depth+1, seen)
+					}
+				}
+			}
+		}
+		dfs(fn, false, 0, map[*ssa.Function]bool{})
+		switch {
+		case !found:
+			c.Ob(mc.Props, "E6.applied-to-each", key, Violated, mc.What+": "+shortFn(mc.Func)+" never reaches "+strings.Join(names, "|"), p.FuncPos(fn), false)
+		case bad != nil:
+			c.Ob(mc.Props, "E6.applied-to-each", key, Violated, mc.What+": "+strings.Join(names, "|")+" is applied once, to a single picked element (call at "+p.InstrPos(bad)+" is in no loop), not to each of them", p.InstrPos(bad), false)
+		default:
+			c.Ob(mc.Props, "E6.applied-to-each", key, Discharged, mc.What+": every path to "+strings.Join(names, "|")+" goes through a loop", p.FuncPos(fn), true)
+		}
+		return
+	}
 	if mc.Mode == "reach" {
 		reached := false
 		for f := range p.reach([]*ssa.Function{fn}) {
